@@ -329,39 +329,40 @@ type workerProc struct {
 }
 
 type Result struct {
-	Harness       string             `json:"harness"`
-	Pkg           string             `json:"pkg"`
-	Verdict       string             `json:"verdict"` // holds | violation | inconclusive | broken
-	Reason        string             `json:"reason,omitempty"`
-	Paths         map[string]int     `json:"paths"`
-	PathsTotal    int                `json:"paths_total"`
-	Forks         int                `json:"forks"`
-	Steps         int64              `json:"steps"`
-	NSat          int                `json:"nsat"`
-	NUnsat        int                `json:"nunsat"`
-	NUnknown      int                `json:"nunknown"`
-	SolverS       float64            `json:"solver_s"`
-	WallS         float64            `json:"wall_s"`
-	LoadS         float64            `json:"load_s"`
-	Reached       []string           `json:"reached"`
-	Funcs         map[string]int64   `json:"funcs"`
-	Stubs         []string           `json:"stubs"`
-	Violations    []interp.Violation `json:"violations"`
-	Confirmed     []ConfirmedViol    `json:"confirmed"`
-	Unconfirmed   []interp.Violation `json:"unconfirmed"`
-	Witnesses     []Witness          `json:"witnesses"`
-	WitnessesOK   int                `json:"witnesses_ok"`
-	WitnessesBad  []string           `json:"witnesses_bad"`
-	Inconclusive  []string           `json:"inconclusive_msgs"`
-	MaxDecisions  int                `json:"max_decisions_seen"`
-	Inputs        []string           `json:"inputs"`
-	SolverVersion string             `json:"solver_version"`
-	QueryScripts  int                `json:"query_scripts"`
-	Workers       int                `json:"workers"`
-	PathWallS     float64            `json:"path_wall_s"`
-	SlowestMs     float64            `json:"slowest_path_solver_ms"`
-	SlowestPrefix string             `json:"slowest_path_prefix"`
-	SlowestQueries int               `json:"slowest_path_queries"`
+	Harness        string             `json:"harness"`
+	Pkg            string             `json:"pkg"`
+	Verdict        string             `json:"verdict"` // holds | violation | inconclusive | broken
+	Reason         string             `json:"reason,omitempty"`
+	Paths          map[string]int     `json:"paths"`
+	PathsTotal     int                `json:"paths_total"`
+	Forks          int                `json:"forks"`
+	Steps          int64              `json:"steps"`
+	NSat           int                `json:"nsat"`
+	NUnsat         int                `json:"nunsat"`
+	NUnknown       int                `json:"nunknown"`
+	SolverS        float64            `json:"solver_s"`
+	WallS          float64            `json:"wall_s"`
+	LoadS          float64            `json:"load_s"`
+	Reached        []string           `json:"reached"`
+	Funcs          map[string]int64   `json:"funcs"`
+	Stubs          []string           `json:"stubs"`
+	Violations     []interp.Violation `json:"violations"`
+	Confirmed      []ConfirmedViol    `json:"confirmed"`
+	Unconfirmed    []interp.Violation `json:"unconfirmed"`
+	Witnesses      []Witness          `json:"witnesses"`
+	WitnessesOK    int                `json:"witnesses_ok"`
+	WitnessesBad   []string           `json:"witnesses_bad"`
+	WitnessRetries int                `json:"witness_retries,omitempty"`
+	Inconclusive   []string           `json:"inconclusive_msgs"`
+	MaxDecisions   int                `json:"max_decisions_seen"`
+	Inputs         []string           `json:"inputs"`
+	SolverVersion  string             `json:"solver_version"`
+	QueryScripts   int                `json:"query_scripts"`
+	Workers        int                `json:"workers"`
+	PathWallS      float64            `json:"path_wall_s"`
+	SlowestMs      float64            `json:"slowest_path_solver_ms"`
+	SlowestPrefix  string             `json:"slowest_path_prefix"`
+	SlowestQueries int                `json:"slowest_path_queries"`
 }
 
 type ConfirmedViol struct {
